@@ -22,15 +22,19 @@ PLANS = {
         'quick': [
             leg('X', 'X', 40, opts={'ops': 10, 'p_model': 0.3}, weight=10,
                 max_workers=10, selftest=2, timeout=1700),
-            leg('S', 'S', 30, opts={'ops': 6, 'p_model': 0.2}, weight=6,
-                max_workers=6, selftest=2, timeout=1700),
+            leg('S', 'S', 30, opts={'ops': 6, 'p_model': 0.2}, weight=5,
+                max_workers=5, selftest=2, timeout=1700),
+            leg('R', 'R', 10, opts={'events': 10}, weight=2, max_workers=2,
+                selftest=1, timeout=1700),
         ],
         'thorough': [
             leg('X', 'X', 320, opts={'ops': 12, 'p_model': 0.35}, weight=9,
                 max_workers=9, selftest=4, timeout=3400, deadline=3500),
             leg('S', 'S', 320, opts={'ops': 8, 'p_model': 0.25, 'max_devices': 64,
                                      'max_devices_model': 16}, weight=7,
-                max_workers=7, selftest=4, timeout=3400, deadline=3500),
+                max_workers=6, selftest=4, timeout=3400, deadline=3500),
+            leg('R', 'R', 60, opts={'events': 14}, weight=2, max_workers=2,
+                selftest=2, timeout=3400, deadline=3500),
         ],
         'rule': (
             'Each evaluation is one seeded simulated run: a drawn (z,x,y) mesh '
@@ -64,11 +68,16 @@ PLANS = {
     },
     'C14': {
         'quick': [
-            leg('K', 'K', 96, opts={'cases': 10}, weight=3, selftest=3),
+            leg('K', 'K', 96, opts={'cases': 10}, weight=10, max_workers=10,
+                selftest=3),
+            leg('R', 'R', 18, opts={'events': 8, 'kmax': 6}, weight=6, max_workers=6,
+                selftest=1, timeout=1700),
         ],
         'thorough': [
-            leg('K', 'K', 1600, opts={'cases': 12}, weight=3, selftest=6,
-                deadline=3000),
+            leg('K', 'K', 1600, opts={'cases': 12}, weight=10, max_workers=10,
+                selftest=6, timeout=3400, deadline=3500),
+            leg('R', 'R', 150, opts={'events': 10, 'kmax': 7}, weight=6, max_workers=6,
+                selftest=2, timeout=3400, deadline=3500),
         ],
         'rule': (
             'Each evaluation is one seeded simulated run = a sequence of '
@@ -97,6 +106,91 @@ PLANS = {
             'iteration in python (checked by the K-ORDER oracle itself)',
             'int32 arithmetic wraps identically inside and outside scan',
             'float64 comparisons use 1e-11..1e-12 relative tolerance',
+        ],
+    },
+    'C11': {
+        'quick': [
+            leg('R', 'R', 48, opts={'events': 12}, weight=16, max_workers=16,
+                selftest=2, timeout=1700),
+        ],
+        'thorough': [
+            leg('R', 'R', 640, opts={'events': 16, 'kmax': 10, 'max_steps': 48},
+                weight=16, max_workers=16, selftest=4, timeout=3400, deadline=3500),
+        ],
+        'rule': (
+            'Each evaluation is one seeded simulated model run: equation class '
+            '(dry / with time / moist / cloud-moist / shallow water) x integrator '
+            'x filter stack x grid x level set x tracer set, driven by a seeded '
+            'sequence of operations and injected events (ADVANCE through the '
+            'real combinators, FILTER_ONLY, IMPLICIT_SOLVE_ONLY, RECONFIGURE, '
+            'CHECKPOINT, CRASH_RESTART from durable bytes, RECOMPILE, RESHARD '
+            'to padded layouts / device meshes). Invariant monitors run after '
+            'every event in both worlds. Non-trivial = at least one model step '
+            'executed and at least one fault event (CRASH_RESTART / RESHARD / '
+            'RECOMPILE) fired and the run stayed conclusive; distinct = '
+            'distinct (job configuration, event-kind sequence) signature.'),
+        'real_vs_stub': {
+            'real': ['all dinosaur modules involved (equations, integrators, '
+                     'filters, transforms, xarray_utils, pytree_utils)',
+                     'XLA CPU runtime (x64), host-platform virtual devices for '
+                     'meshes', 'xarray / scipy netCDF3 / fsspec memory://'],
+            'stub': ['disk = fsspec in-process memory file system or an '
+                     'in-memory dataset copy',
+                     'crash = all volatile objects dropped + jax.clear_caches() '
+                     'inside one process (not a killed process)',
+                     'devices = XLA host-platform virtual devices'],
+        },
+        'assumptions': [
+            'admissible initial states (masked, top wavenumber clipped, zero '
+            'mean vorticity/divergence), amplitudes such that a step changes '
+            'fields by 1e-2..0.6 relative',
+            'invariant tolerances: structural zeros exact; (0,0) drift <= '
+            'n*1e-12*scale; uniform tracer <= n*1e-11; clock <= n*1e-11*dt '
+            '(measured drift 1e-15..1e-13)',
+            'runs whose state grows > 1e3x are classified physically unstable '
+            '(inconclusive), not violations',
+            'torn / lost writes are not injected (no atomicity property stated)',
+        ],
+    },
+    'C19': {
+        'quick': [
+            leg('R', 'R', 48, opts={'events': 12}, weight=16, max_workers=16,
+                selftest=2, timeout=1700),
+        ],
+        'thorough': [
+            leg('R', 'R', 640, opts={'events': 16, 'kmax': 10}, weight=16,
+                max_workers=16, selftest=4, timeout=3400, deadline=3500),
+        ],
+        'rule': (
+            'Each evaluation is one seeded simulated model run with a durable / '
+            'volatile split: CHECKPOINT (in-memory dataset or netCDF bytes on '
+            'fsspec memory://, optional diagnostics), CRASH_RESTART that '
+            'rebuilds coordinate system and state from durable bytes only, '
+            'ADVANCE with trajectory chunks written with time / sample axes, '
+            'CODEC (pytree_utils compositions on the live state, nested '
+            'dictionaries with random names / empty branches / separators) and '
+            'UPSAMPLE (up/down-sampling to a finer grid). Non-trivial = at '
+            'least one checkpoint/restart cycle or codec case executed; '
+            'distinct = distinct (job configuration, event-kind sequence).'),
+        'real_vs_stub': {
+            'real': ['dinosaur.xarray_utils / coordinate_systems / pytree_utils '
+                     '/ spherical_harmonic and the model that produces the state',
+                     'xarray, scipy netCDF3 backend, fsspec'],
+            'stub': ['disk = fsspec memory:// (in-process)',
+                     'crash = volatile objects dropped + jax.clear_caches() in '
+                     'one process', 'restart script = the harness (looks up the '
+                     'spherical-harmonics class by its serialised name in '
+                     'GRID_REGISTRY and re-creates the mesh from the serialised '
+                     'mesh string)'],
+        },
+        'assumptions': [
+            'grids whose modal and nodal shapes coincide and one-layer nodal '
+            'diagnostics are excluded from the dimension-name oracle '
+            '(shape-based inference is inherently ambiguous there)',
+            'object equality of the reconstructed coordinate system is not '
+            'demanded (implementation class and mesh are deliberately not '
+            'restored by coordinate_system_from_attrs); only discretisation '
+            'fields are compared',
         ],
     },
 }
